@@ -34,6 +34,12 @@ impl<'a> CharacterString<'a> {
             data: self.data.into_owned().into(),
         }
     }
+
+    /// Verification hook: raw bytes of this character string
+    #[cfg(simple_dns_verif)]
+    pub fn verif_bytes(&self) -> &[u8] {
+        &self.data
+    }
 }
 
 impl<'a> TryFrom<CharacterString<'a>> for String {
